@@ -11,9 +11,11 @@ def _canon_table():
     U+09DF vs U+09AF U+09BC), keyed by their NFD form"""
     import unicodedata, os, sys
     sys.path.insert(0, os.path.dirname(os.path.abspath(__file__)))
-    import srcfacts
-    f = srcfacts.extract(os.environ.get("PAKHI_REPO", "/repo"))
-    names = list(f["builtins"]) + [w for _, w in f["types"]] + [w for w, _ in f["keywords"]] + [f["platform_const"], f["dirname_const"]]
+    # the words as the *model* spells them (lean/Pakhi/Model/Words.lean, generated once by tools/mkwords.py and committed):
+    # programs are written in the language the model defines, whatever shape the Rust source has today
+    import re
+    words = open(os.path.join(os.path.dirname(os.path.dirname(os.path.abspath(__file__))), "lean", "Pakhi", "Model", "Words.lean"), encoding="utf-8").read()
+    names = re.findall(r"^/-- `(.+)` -/$", words, flags=re.M)
     return {unicodedata.normalize("NFD", n): n for n in names}
 
 
